@@ -5,10 +5,13 @@
                   1802 AddBinding replaced a binding that carried a valid IPv6 address (it is erased)
                   1805 AddAllowedRange stored the range byte-reversed (non-palindromic address) *)
 From Coq Require Import NArith List Bool.
-From Verif Require Import Base.Word Model.TcQos Model.TcAntispoof.
+From Verif Require Import Base.Word Model.TcQos Model.TcAntispoofC Model.TcAntispoof.
 Import ListNotations.
 Local Open Scope N_scope.
 
+(* keys: the manager computes macToUint64(mac) in Go (TcAntispoofC.go_mac_key) and cilium marshals the uint64
+   natively; PutBinding is the harness writing a raw entry under the documented key form (spec_mac_key: the MAC as
+   a 48-bit big-endian number in a little-endian u64); the program looks up TcAntispoof.mac_key = the C derivation. *)
 Record state := { maps : amaps; mgr_mode : N }.
 Definition init : state := {| maps := {| a_cfg := Some [0;0;0;0;0;0;0;0]; a_bind := []; a_ranges := [] |}; mgr_mode := 1 |}.
 
@@ -61,26 +64,26 @@ Definition step (s : state) (o : op) : state * out * list N :=
   | NewMgr m => ({| maps := maps s; mgr_mode := if m =? 0 then 1 else m |}, OUnit, [])
   | AddBinding mac ip =>
       if negb (N.of_nat (length mac) =? 6) then (s, OErr, []) else
-      let old := m_get (a_bind (maps s)) (mac_key mac) in
+      let old := m_get (a_bind (maps s)) (go_mac_key mac) in
       let erased := match old with Some b => negb (nthb b 21 =? 0) | None => false end in
       let v := match to4 ip with
                | Some ip4 => mk_binding (rev ip4) zero16 1 0 (mgr_mode s)
                | None => mk_binding [0;0;0;0] zero16 0 0 (mgr_mode s)
                end in
-      (set_bind s (m_put (a_bind (maps s)) (mac_key mac) v), OUnit,
+      (set_bind s (m_put (a_bind (maps s)) (go_mac_key mac) v), OUnit,
        (match to4 ip with Some ip4 => if palin4 ip4 then [] else [1801] | None => [] end) ++
        (if erased then [1802] else []))
   | AddBindingV6 mac ip =>
       if negb (N.of_nat (length mac) =? 6) then (s, OErr, []) else
-      let old := match m_get (a_bind (maps s)) (mac_key mac) with Some b => b | None => mk_binding [0;0;0;0] zero16 0 0 0 end in
+      let old := match m_get (a_bind (maps s)) (go_mac_key mac) with Some b => b | None => mk_binding [0;0;0;0] zero16 0 0 0 end in
       let v := match to16 ip with
                | Some ip6 => firstn 4 old ++ ip6 ++ [nthb old 20; 1; mgr_mode s; nthb old 23]
                | None => firstn 22 old ++ [mgr_mode s; nthb old 23]
                end in
-      (set_bind s (m_put (a_bind (maps s)) (mac_key mac) v), OUnit, [])
+      (set_bind s (m_put (a_bind (maps s)) (go_mac_key mac) v), OUnit, [])
   | RemoveBinding mac =>
       if negb (N.of_nat (length mac) =? 6) then (s, OErr, []) else
-      (set_bind s (m_del (a_bind (maps s)) (mac_key mac)), OUnit, [])
+      (set_bind s (m_del (a_bind (maps s)) (go_mac_key mac)), OUnit, [])
   | SetMode m =>
       ({| maps := {| a_cfg := Some [N.land m 255; 1; 0; 0; 0; 0; 0; 0]; a_bind := a_bind (maps s); a_ranges := a_ranges (maps s) |};
           mgr_mode := N.land m 255 |}, OUnit, [])
@@ -95,7 +98,7 @@ Definition step (s : state) (o : op) : state * out * list N :=
       end
   | PutBinding mac v =>
       if (N.of_nat (length mac) =? 6) && (N.of_nat (length v) =? 24)
-      then (set_bind s (m_put (a_bind (maps s)) (mac_key mac) v), OUnit, []) else (s, OErr, [])
+      then (set_bind s (m_put (a_bind (maps s)) (spec_mac_key mac) v), OUnit, []) else (s, OErr, [])
   | PutConfig v =>
       if N.of_nat (length v) =? 8
       then ({| maps := {| a_cfg := Some v; a_bind := a_bind (maps s); a_ranges := a_ranges (maps s) |}; mgr_mode := mgr_mode s |}, OUnit, [])
